@@ -639,4 +639,82 @@ class AfterTheBaseModules(object):
         return 'ok' if not vs else 'bad', vs, 2
 
 
-FAMILIES = [Imports(), Equivalence(), EquivalenceOtherDialects(), TypeIndex(), RenamedUses(), MixedImports(), ForeignTrapVariables(), AfterTheBaseModules()]
+class BelowATrap(object):
+    name = 'nodes-and-defaults-that-go-through-a-trap'
+    describe = ('an SMIv1 module with a TRAP-TYPE (numbers 0, 7, 2147483647; enterprise a local / an imported node), a node hung below '
+                'the trap in the same module and in a module that imports the trap, and an OBJECT IDENTIFIER object whose DEFVAL '
+                'names the trap - next to the transliteration with NOTIFICATION-TYPE ::= { enterprise 0 n }: same OIDs and same '
+                'default, JSON and pysnmp')
+
+    def blocks(self, tier):
+        return [{'backend': b} for b in ('json', 'pysnmp')]
+
+    def cases(self, block, tier):
+        for num in (0, 7, 2147483647):
+            for ent in ('local', 'imported'):
+                yield {'backend': block['backend'], 'num': num, 'ent': ent}
+
+    def run_case(self, case):
+        n = case['num']
+        entdecl = 'acme OBJECT IDENTIFIER ::= { enterprises 99 }\n' if case['ent'] == 'local' else ''
+        entimp = '' if case['ent'] == 'local' else ' acme FROM ACME-SMI'
+        smi = 'ACME-SMI DEFINITIONS ::= BEGIN\nIMPORTS enterprises FROM SNMPv2-SMI;\nacme OBJECT IDENTIFIER ::= { enterprises 99 }\nEND\n'
+        body = ('acmeInfo OBJECT IDENTIFIER ::= { acmeAlarm 1 }\n'
+                'acmeLast OBJECT-TYPE SYNTAX OBJECT IDENTIFIER %s read-write STATUS %s DESCRIPTION "d" DEFVAL { acmeAlarm } ::= { acme 5 }\n')
+        v1 = ('V1-MIB DEFINITIONS ::= BEGIN\nIMPORTS enterprises FROM RFC1155-SMI OBJECT-TYPE FROM RFC-1212 TRAP-TYPE FROM RFC-1215%s;\n%s'
+              'acmeAlarm TRAP-TYPE ENTERPRISE acme DESCRIPTION "d" ::= %d\n' % (entimp, entdecl, n)) + body % ('ACCESS', 'mandatory') + 'END\n'
+        v2 = ('V2-MIB DEFINITIONS ::= BEGIN\nIMPORTS enterprises, OBJECT-TYPE, NOTIFICATION-TYPE FROM SNMPv2-SMI%s;\n%s'
+              'acmeAlarm NOTIFICATION-TYPE STATUS current DESCRIPTION "d" ::= { acme 0 %d }\n' % (entimp, entdecl, n)) + body % ('MAX-ACCESS', 'current') + 'END\n'
+        ext = '%s DEFINITIONS ::= BEGIN\nIMPORTS acmeAlarm FROM %s;\nextBelow OBJECT IDENTIFIER ::= { acmeAlarm 2 }\nEND\n'
+        texts = {'ACME-SMI': smi, 'V1-MIB': v1, 'V2-MIB': v2, 'E1-MIB': ext % ('E1-MIB', 'V1-MIB'), 'E2-MIB': ext % ('E2-MIB', 'V2-MIB')}
+        sig = 'C16|below-a-trap|%s-enterprise|%s' % (case['ent'], case['backend'])
+        r1, w1 = compile_v(texts, ['E1-MIB'], 'json')
+        r2, w2 = compile_v(texts, ['E2-MIB'], 'json')
+        bad = [m for m, r in (('V1-MIB', r1), ('E1-MIB', r1), ('V2-MIB', r2), ('E2-MIB', r2)) if r.get(m) != 'compiled']
+        if bad:
+            if bad[0].endswith('2-MIB'):
+                raise core.InternalError('the transliteration does not compile: %r' % (getattr(r2.get(bad[0]), 'error', None),))
+            return 'notcompiled', [('%s|not-compiled' % sig, '%s: %r\n%s' % (bad[0], getattr(r1.get(bad[0]), 'error', None), v1))], 2
+        vs = []
+        base = '1.3.6.1.4.1.99.0.%d' % n
+        want = {'acmeAlarm': base, 'acmeInfo': base + '.1'}
+        if case['backend'] == 'json':
+            d1, d2, e1, e2 = [json.loads(x) for x in (w1['V1-MIB'], w2['V2-MIB'], w1['E1-MIB'], w2['E2-MIB'])]
+            for sym, oid in sorted(want.items()):
+                if d1.get(sym, {}).get('oid') != oid or d2.get(sym, {}).get('oid') != oid:
+                    vs.append(('%s|oid-differs|%s' % (sig, sym), 'SMIv1 %r, transliteration %r, declared %s' % (
+                        d1.get(sym, {}).get('oid'), d2.get(sym, {}).get('oid'), oid)))
+            if e1.get('extBelow', {}).get('oid') != base + '.2' or e2.get('extBelow', {}).get('oid') != base + '.2':
+                vs.append(('%s|oid-differs|node-in-the-importing-module' % sig, 'SMIv1 %r, transliteration %r, declared %s.2' % (
+                    e1.get('extBelow', {}).get('oid'), e2.get('extBelow', {}).get('oid'), base)))
+            f1 = (d1.get('acmeLast', {}).get('default') or {}).get('default')
+            f2 = (d2.get('acmeLast', {}).get('default') or {}).get('default')
+            if f1 != f2:
+                vs.append(('%s|default-differs' % sig, 'SMIv1 %r, transliteration %r' % (f1, f2)))
+        else:
+            rp1, wp1 = compile_v(texts, ['E1-MIB'], 'pysnmp')
+            rp2, wp2 = compile_v(texts, ['E2-MIB'], 'pysnmp')
+            objs = []
+            for written, mod, emod in ((wp1, 'V1-MIB', 'E1-MIB'), (wp2, 'V2-MIB', 'E2-MIB')):
+                b = pysnmp_rec.RecBuilder()
+                err = None
+                for m in ('ACME-SMI', mod, emod):
+                    if m in written and not err:
+                        ns, err = pysnmp_rec.run_module(written[m], b, m)
+                        if m == mod:
+                            nsm = ns
+                if err:
+                    vs.append(('%s|does-not-execute|%s' % (sig, mod[:2]), err[:300]))
+                    objs.append(None)
+                    continue
+                objs.append((getattr(nsm.get('acmeInfo'), 'oid', None), getattr(ns.get('extBelow'), 'oid', None),
+                             repr(pysnmp_rec.syntax_of(nsm.get('acmeLast')).chain() if nsm.get('acmeLast') is not None else None)))
+            if None not in objs and objs[0] != objs[1]:
+                vs.append(('%s|objects-differ' % sig, 'SMIv1 %r, transliteration %r' % (objs[0], objs[1])))
+            tup = tuple(int(x) for x in base.split('.'))
+            if objs[1] is not None and objs[1][:2] != (tup + (1,), tup + (2,)):
+                raise core.InternalError('the transliteration gives other OIDs than declared: %r' % (objs[1],))
+        return 'ok' if not vs else 'bad', vs, 4
+
+
+FAMILIES = [Imports(), Equivalence(), EquivalenceOtherDialects(), TypeIndex(), RenamedUses(), MixedImports(), ForeignTrapVariables(), AfterTheBaseModules(), BelowATrap()]
